@@ -258,3 +258,6 @@ func vfPendingTimers() int       { return 0 }
 
 // vfIteLifting: gse normaliser option (lift if-then-else through sums); used by the relational harnesses.
 func vfIteLifting(on bool) {}
+
+// vfGhost wraps a condition over executor-only (ghost) state: identity under gse, true natively.
+func vfGhost(c bool) bool { return true }
